@@ -346,9 +346,6 @@ func BufferSnippet(b []byte) string {
 func normalizeHeaderValue(ov, ob []byte, headerLength int) (nv, nb []byte, nhl int) {
 	nv = ov
 	length := len(ov)
-	if length <= 0 {
-		return
-	}
 	write := 0
 	shrunk := 0
 	lineStart := false
